@@ -9,7 +9,7 @@ def main():
     mid = sys.argv[1]
     d = os.path.join("/verif/seeded", mid)
     feats = sys.argv[2] if len(sys.argv) > 2 else ""
-    head = sh("git -C /repo rev-parse HEAD").stdout.strip()
+    head = sh("git -C /repo rev-parse HEAD", cwd="/").stdout.strip()
     if not os.path.isdir(WT):
         sh("git -C /repo worktree add -q --detach %s HEAD && cp -r /repo/target %s/target && cp /repo/Cargo.lock %s/" % (WT, WT, WT), cwd="/")
     sh("git checkout -q -- . && git checkout -q --detach %s" % head)
